@@ -178,7 +178,13 @@ def scenarios(tier):
             ('quit_loop',), ('quit',), ('error',), ('switch', 1, False, True), ('switch', 0, True, False),
             ('direct_switch', 1), ('direct_switch', 0)]
     n = 3 if tier != 'thorough' else 4
-    for readings in ([0, 3, 10, 17, 18, 19, 25, 26, 30, 31], [5, 5, 6, 9.5, 10, 12, 13, 20, 21, 22]):
+    from fractions import Fraction as F
+    big = 2 ** 60
+    for readings in ([0, 3, 10, 17, 18, 19, 25, 26, 30, 31], [5, 5, 6, 9.5, 10, 12, 13, 20, 21, 22],
+                     # exact clocks: integer ticks beyond 2**53 and rational fixed steps
+                     [big, big + 100, big + 250, big + 251, big + 1000, big + 1001, big + 1002, big + 1500,
+                      big + 1501, big + 1777],
+                     [F(k_, 3) for k_ in (0, 1, 2, 4, 5, 6, 10, 11, 13, 14)]):
         for k in range(1, n + 1):
             for combo in itertools.product(acts, repeat=k):
                 restarts = sum(1 for a in combo if a[0] in ('quit', 'quit_loop', 'error'))
@@ -241,6 +247,8 @@ def main():
     if req['mode'] == 'replay' and req.get('history'):
         h = req['history']
         script = [tuple(a) for a in h['script']]
+        from fractions import Fraction
+        h['readings'] = [Fraction(r) if isinstance(r, str) else r for r in h['readings']]
         out = run_scenario(script, h['readings'], h.get('restarts', 0))
         v = judge(script, h['readings'], h.get('restarts', 0), out)
         print(json.dumps({'status': 'reproduced' if v else 'held', 'history': h, 'observed': v and v[1],
